@@ -64,7 +64,18 @@ func dgram6(kind string, xid [3]byte, cid []byte, nonce int, idx int) (*inj6, []
 	if kind != "advertise-nosid" {
 		b = append(b, tlv6(2, []byte{0, 3, 0, 1, 0xaa, 0xbb, 0xcc, 0xdd, 0xee, byte(idx)})...)
 	}
-	ia := append([]byte{1, 2, 3, byte(idx), 0, 0, 0, 100, 0, 0, 0, 200}, tlv6(5, append(append([]byte{0x20, 0x01, 0x0d, 0xb8, 0, 0, 0, 0, 0, 0, 0, 0, 0, 0, 0, byte(idx + 1)}, 0, 0, 1, 0), 0, 0, 2, 0))...)
+	addr := append(append([]byte{0x20, 0x01, 0x0d, 0xb8, 0, 0, 0, 0, 0, 0, 0, 0, 0, 0, 0, byte(idx + 1)}, 0, 0, 1, 0), 0, 0, 2, 0)
+	if nonce%3 == 1 { // a status code inside the IA address
+		addr = append(addr, tlv6(13, append([]byte{0, 0}, "addr ok"...))...)
+	}
+	ia := append([]byte{1, 2, 3, byte(idx), 0, 0, 0, 100, 0, 0, 0, 200}, tlv6(5, addr)...)
+	switch nonce % 4 {
+	case 1: // a status code, a second address and an option the library has no type for inside the IA_NA
+		ia = append(ia, tlv6(13, append([]byte{0, 0}, "success"...))...)
+		ia = append(ia, tlv6(5, append(append([]byte{0x20, 0x01, 0x0d, 0xb8, 0, 1, 0, 0, 0, 0, 0, 0, 0, 0, 0, byte(idx + 1)}, 0, 0, 0, 9), 0, 0, 0, 10))...)
+	case 2:
+		ia = append(ia, tlv6(65010, []byte{byte(nonce), 7, 7})...)
+	}
 	b = append(b, tlv6(3, ia)...)
 	var nb [4]byte
 	binary.BigEndian.PutUint32(nb[:], uint32(nonce))
